@@ -244,6 +244,15 @@ CHECKS = {
              "modules are compiled and executed, each call site reporting which definition it expanded to, and "
              "core-shadow warnings are compared, including the pragma that disables them.",
         note="Local macros are scoped by functions only (classes and comprehensions share the mechanism)."),
+    "C36": dict(
+        engine="macros", level="model_checking", design="5.7, 6/C36",
+        technique="TLC enumerates every macro environment of HyExpand and checks the one-step / fixpoint laws; each is "
+                  "installed in a real module and hy.macroexpand-1 / hy.macroexpand compared with the spec",
+        text="HyExpand gives one expansion step and its fixpoint over chains of user macros ending in another macro, the "
+             "Hy-level core macro when, the result-producing core form if, a function or an atom; TLC checks the laws for "
+             "all environments and exports the expected forms; the real functions are called with module macros and with "
+             "the macros argument, results compared node by node, and the input model must be unchanged.",
+        note="Macro calls inside arguments are not expanded by these functions and are not generated."),
     "C38": dict(
         engine="gensym", level="model_checking", design="5.8, 6/C38",
         technique="TLC exhaustive interleavings of the op program extracted from gensym's bytecode; "
